@@ -362,6 +362,56 @@ def check_inf(prog: Program, res: Result, rule: str, scope_prefix: str) -> None:
     res.floor(rule, 1)
 
 
+def _unwrap_index_set(fn: ast.AST, e: ast.AST, depth: int = 4) -> ast.AST:
+    """Strip set()/list()/frozenset()/np.asarray()/.tolist() wrappers and follow single-assignment names."""
+    while depth > 0:
+        depth -= 1
+        if isinstance(e, ast.Call) and e.args and norm(e.func).split(".")[-1] in ("set", "list", "frozenset", "tuple", "asarray", "array", "unique"):
+            e = e.args[0]
+        elif isinstance(e, ast.Call) and isinstance(e.func, ast.Attribute) and e.func.attr in ("tolist", "copy"):
+            e = e.func.value
+        elif isinstance(e, ast.Name):
+            d = astq.deref(fn, e, 1)
+            if d is e or d is None:
+                break
+            e = d
+        else:
+            break
+    return e
+
+
+def check_unmatched(prog: Program, res: Result) -> None:
+    """Detections the matcher left unassigned are the indices of current_instances NOT among the matched ROW indices
+    (rows index detections, columns index track ids): only those may receive a fresh track."""
+    R = "C09-unmatched"
+    for cq in CANDS:
+        u = prog.cls(cq).methods.get("update_tracks")
+        if u is None:
+            raise AnalysisError(f"{cq}.update_tracks vanished")
+        res.touch(u)
+        params = u.pos_params
+        if len(params) < 4:
+            raise AnalysisError(f"{u.qualname}: unexpected signature {params}")
+        inst_p, row_p, col_p = params[1], params[2], params[3]
+        comps = [c for c in walk_function(u.node) if isinstance(c, ast.ListComp) and len(c.generators) == 1 and c.generators[0].ifs
+                 and isinstance(c.generators[0].iter, ast.Call) and norm(c.generators[0].iter.func) == "range"]
+        if not comps:
+            raise AnalysisError(f"{u.qualname}: the list of unmatched detection indices was not found")
+        for c in comps:
+            g = c.generators[0]
+            where = f"{u.module.relpath}:{c.lineno}"
+            rng = norm(g.iter.args[0]) if len(g.iter.args) == 1 else ""
+            res.ob(R, rng.startswith(f"len({inst_p}"), u.qualname, f"candidates range over all current detections: {short(g.iter, 50)}",
+                   f"unmatched detections are searched in `{short(g.iter, 50)}`, not in all of `{inst_p}`", where)
+            t = g.ifs[0]
+            ok = isinstance(t, ast.Compare) and len(t.ops) == 1 and isinstance(t.ops[0], ast.NotIn) and norm(t.left) == norm(g.target) and norm(c.elt) == norm(g.target)
+            src = norm(_unwrap_index_set(u.node, t.comparators[0])) if ok else None
+            res.ob(R, ok and src == row_p, u.qualname, f"unmatched = indices not in the matched rows `{row_p}`",
+                   f"`{short(c, 70)}` excludes the members of `{src}`; the matched DETECTION indices are `{row_p}` (`{col_p}` holds track ids): a matched detection is "
+                   "given a second, new track and the truly new one is returned without a track", where)
+    res.floor(R, 4)
+
+
 def check(prog: Program, res: Result) -> None:
     check_alloc(prog, res)
     check_truth(prog, res)
@@ -370,6 +420,7 @@ def check(prog: Program, res: Result) -> None:
     check_iface(prog, res)
     check_inf(prog, res, "C09-inf", "sleap_nn.tracking")
     _match.check_greedy(prog, res, "C09-match")
+    check_unmatched(prog, res)
     res.assumptions += [
         "the behaviour over histories beyond these necessary conditions (e.g. that the right track is chosen) is not decided",
     ]
@@ -401,6 +452,11 @@ VARIANTS = [
     # behaviour preserving
     Variant("match-mask-unguarded", UTF, '    # Sort edges by ascending cost.\n    rows, cols = np.unravel_index(np.argsort(cost_matrix, axis=None), cost_matrix.shape)\n    unassigned_edges = list(zip(rows, cols))\n\n    # Greedily assign edges.\n    row_inds, col_inds = [], []\n    while len(unassigned_edges) > 0:\n        # Assign the lowest cost edge.\n        row_ind, col_ind = unassigned_edges.pop(0)\n        row_inds.append(row_ind)\n        col_inds.append(col_ind)\n\n        # Remove all other edges that contain either node (in reverse order).\n        for i in range(len(unassigned_edges) - 1, -1, -1):\n            if unassigned_edges[i][0] == row_ind or unassigned_edges[i][1] == col_ind:\n                del unassigned_edges[i]\n', '    cost = np.array(cost_matrix, dtype="float64")\n    row_inds, col_inds = [], []\n    for _ in range(min(cost.shape)):\n        row_ind, col_ind = np.unravel_index(np.argmin(cost), cost.shape)\n        row_inds.append(row_ind)\n        col_inds.append(col_ind)\n        cost[row_ind, :] = np.inf\n        cost[:, col_ind] = np.inf\n', "C09-match"),
     Variant("match-mask-row-only", UTF, '    # Sort edges by ascending cost.\n    rows, cols = np.unravel_index(np.argsort(cost_matrix, axis=None), cost_matrix.shape)\n    unassigned_edges = list(zip(rows, cols))\n\n    # Greedily assign edges.\n    row_inds, col_inds = [], []\n    while len(unassigned_edges) > 0:\n        # Assign the lowest cost edge.\n        row_ind, col_ind = unassigned_edges.pop(0)\n        row_inds.append(row_ind)\n        col_inds.append(col_ind)\n\n        # Remove all other edges that contain either node (in reverse order).\n        for i in range(len(unassigned_edges) - 1, -1, -1):\n            if unassigned_edges[i][0] == row_ind or unassigned_edges[i][1] == col_ind:\n                del unassigned_edges[i]\n', '    cost = np.array(cost_matrix, dtype="float64")\n    row_inds, col_inds = [], []\n    for _ in range(min(cost.shape)):\n        row_ind, col_ind = np.unravel_index(np.argmin(cost), cost.shape)\n        if not np.isfinite(cost[row_ind, col_ind]):\n            break\n        row_inds.append(row_ind)\n        col_inds.append(col_ind)\n        cost[row_ind, :] = np.inf\n', "C09-match"),
+    Variant("unmatched-by-track-id", LQF, "                x for x in range(len(current_instances)) if x not in row_inds\n            ]",
+            "                x for x in range(len(current_instances)) if x not in matched_inds\n            ]", "C09-"),
+    Variant("unmatched-cols", LQF, "                x for x in range(len(current_instances)) if x not in row_inds", "                x for x in range(len(current_instances)) if x not in set(col_inds)", "C09-unmatched"),
+    Variant("bp-unmatched-set", FWF, "            new_current_instances_inds = [\n                x for x in range(len(current_instances.features)) if x not in row_inds\n            ]",
+            "            matched = set(row_inds)\n            new_current_instances_inds = [\n                x for x in range(len(current_instances.features)) if x not in matched\n            ]", None),
     Variant("match-and", UTF, "            if unassigned_edges[i][0] == row_ind or unassigned_edges[i][1] == col_ind:", "            if unassigned_edges[i][0] == row_ind and unassigned_edges[i][1] == col_ind:", "C09-match"),
     Variant("bp-match-mask-guarded", UTF, '    # Sort edges by ascending cost.\n    rows, cols = np.unravel_index(np.argsort(cost_matrix, axis=None), cost_matrix.shape)\n    unassigned_edges = list(zip(rows, cols))\n\n    # Greedily assign edges.\n    row_inds, col_inds = [], []\n    while len(unassigned_edges) > 0:\n        # Assign the lowest cost edge.\n        row_ind, col_ind = unassigned_edges.pop(0)\n        row_inds.append(row_ind)\n        col_inds.append(col_ind)\n\n        # Remove all other edges that contain either node (in reverse order).\n        for i in range(len(unassigned_edges) - 1, -1, -1):\n            if unassigned_edges[i][0] == row_ind or unassigned_edges[i][1] == col_ind:\n                del unassigned_edges[i]\n', '    cost = np.array(cost_matrix, dtype="float64")\n    row_inds, col_inds = [], []\n    for _ in range(min(cost.shape)):\n        row_ind, col_ind = np.unravel_index(np.argmin(cost), cost.shape)\n        if not np.isfinite(cost[row_ind, col_ind]):\n            break\n        row_inds.append(row_ind)\n        col_inds.append(col_ind)\n        cost[row_ind, :] = np.inf\n        cost[:, col_ind] = np.inf\n', None),
     Variant("bp-alloc-len-current", FWF, "            new_track_id = max(self.current_tracks) + 1", "            new_track_id = len(self.current_tracks)", None),
